@@ -160,7 +160,7 @@ func (s *Sim) onEnsure(n *Node, in *inst, e ensureRec) {
 	if _, ok := m[e.dig]; !ok {
 		m[e.dig] = fmt.Sprintf("n%d.%d@step%d", n.id, in.inc, s.step)
 	}
-	if len(m) > 1 {
+	if len(m) > 1 && !s.cfg.Ghost { // (in tally mode the simulator holds a stake majority: C01's hypothesis does not apply)
 		s.violate("C01", "two-blocks-one-round", "", fmt.Sprintf("round %d committed with %d different digests: %v", e.round, len(m), func() []string {
 			var l []string
 			for d, w := range m {
